@@ -45,6 +45,31 @@ def _real():
     return text_helper, text_stats
 
 
+def eff_B(fn, B: Optional[str]) -> str:
+    """the break characters in effect for a call of the real function `fn`: the ones passed, else (B is None:
+    the function is called WITHOUT word_break_chars) the default the function declares — its public
+    interface, read with inspect for the ORACLE only; the model gets `null` and uses the default that
+    harness/translate.py regenerated from the source (no copy of the default lives in the harness)"""
+    if B is not None:
+        return B
+    import inspect
+    d = inspect.signature(fn).parameters['word_break_chars'].default
+    return d if isinstance(d, str) else ''.join(sorted(d))
+
+
+def wbc_kw(B: Optional[str]) -> Dict[str, Any]:
+    """keyword arguments for a real call: nothing when the default is to apply"""
+    return {} if B is None else {'word_break_chars': B}
+
+
+# the statement's reading of "hyphens" for remove_hyphen (the oracle keeps its own reading; that the character
+# set of the source stays within it is the Lean obligation C17_consts_hyphen_set_within_spec)
+SPEC_HYPHENS = '-=:'
+
+DEFAULT_POOL = '-=:'      # break-like characters for the lines of the default-argument cases (any of them may
+                          # be or become a default; the cases do not depend on which)
+
+
 def is_space(ch: str) -> bool:
     return ch.isspace()
 
@@ -118,8 +143,12 @@ def make_detector(spec: Optional[Dict[str, Any]]):
     with contextlib.redirect_stdout(io.StringIO()):
         if 'gen' in spec:
             g = spec['gen']
-            wbd = ts.WordBreakDetector(min_bigram_word_freq=g.get('min_bigram', 5), word_break_chars=g['B'],
-                                       lines=gen_corpus(g))
+            if g.get('default_B'):
+                # the detector's own default break characters (exported to the model as the object's data)
+                wbd = ts.WordBreakDetector(min_bigram_word_freq=g.get('min_bigram', 5), lines=gen_corpus(g))
+            else:
+                wbd = ts.WordBreakDetector(min_bigram_word_freq=g.get('min_bigram', 5), word_break_chars=g['B'],
+                                           lines=gen_corpus(g))
         else:
             t = spec['tables']
             wbd = ts.WordBreakDetector(word_break_chars=t['B'])
@@ -169,6 +198,129 @@ def random_tables(rng: random.Random, B: str, vocab: List[str]) -> Dict[str, Any
     return {'B': B, 'all': counter(0.5), 'mid': counter(0.4), 'start': counter(0.4), 'end': counter(0.4),
             'bigram': big, 'tme': subset(0.1), 'tms': subset(0.1), 'tnme': subset(0.07), 'tnms': subset(0.07),
             'cnms': subset(0.1)}
+
+
+# ---------------------------------------------------------------------------------------
+# constants regenerated from the source (read with `ast` on every run, never imported)
+# ---------------------------------------------------------------------------------------
+
+TS = 'pagexml/analysis/text_stats.py'
+TH = 'pagexml/helper/text_helper.py'
+
+
+def generated_c17() -> Dict[str, str]:
+    """Generated/C17.lean: the factors reaching the predicates of determine_word_break (per call site: the
+    literal passed, or the callee's default), the frequency thresholds inside the predicates, the hyphen
+    literals, remove_hyphen's character set, and the default break characters"""
+    from harness import translate as tr
+    E = tr.TranslateError
+    nat = tr.as_nat
+
+    def words_passed(fn, callee, expected):
+        got = tr.call_arguments_each(TS, fn, callee, 'word', 1, len(expected))
+        if got != [('NAME', w) for w in expected]:
+            raise E(f'{fn}: the calls of {callee} are about {got}, expected the variables {expected}')
+
+    # determine_word_break: the cascade
+    big = [nat(v) for v in tr.effective_arguments_each(TS, 'determine_word_break', 'end_start_are_bigram',
+                                                       'factor', 3, 2, TS)]
+    title = nat(tr.effective_arguments_each(TS, 'determine_word_break', 'start_word_has_incorrect_titlecase',
+                                            'factor', 3, 1, TS)[0])
+    common = nat(tr.effective_arguments_each(TS, 'determine_word_break', 'end_is_common_word', 'common_freq', 2, 1,
+                                             TS)[0])
+    # merge_is_more_common: is_non_mid_word(end_word, …) then is_non_mid_word(start_word, …)
+    words_passed('merge_is_more_common', 'is_non_mid_word', ['end_word', 'start_word'])
+    mm = [nat(v) for v in tr.effective_arguments_each(TS, 'merge_is_more_common', 'is_non_mid_word', 'factor', 2, 2,
+                                                      TS)]
+    mm_min = nat(tr.literal_in_x(TS, 'merge_is_more_common', "wbd.freq['all'][merge_word] > _N0", '_N0'))
+    # start_word_has_incorrect_titlecase: is_non_mid_word(start_word) and is_non_mid_word(end_word)
+    words_passed('start_word_has_incorrect_titlecase', 'is_non_mid_word', ['start_word', 'end_word'])
+    tc = [nat(v) for v in tr.effective_arguments_each(TS, 'start_word_has_incorrect_titlecase', 'is_non_mid_word',
+                                                      'factor', 2, 2, TS)]
+    # has_word_break_symbol
+    sym = tr.literal_in_x(TS, 'has_word_break_symbol', 'end_word[-1] != _S0', '_S0')
+    sym_min = nat(tr.literal_in_x(TS, 'has_word_break_symbol', "wbd.freq['all'][merge_word] > _N0", '_N0'))
+    # end_start_are_hyphenated_compound
+    comp = tr.literal_in_x(TS, 'end_start_are_hyphenated_compound',
+                           'end_word[0].isupper() and end_word[-1] == _S0 and start_word[0].isupper()', '_S0')
+    unseen = {}
+    for w in ('start_word', 'end_word'):
+        m = tr.literals_in_x(TS, 'end_start_are_hyphenated_compound',
+                             f"wbd.freq['mid'][{w}] == _N0 and wbd.freq['all'][merge_word] == _N1 and "
+                             f"wbd.freq['all'][end_word + start_word] == _N2")[0]
+        unseen[w] = [nat(m['_N0']), nat(m['_N1']), nat(m['_N2'])]
+    # has_non_merge_word
+    nm_end = tr.literal_in_x(TS, 'has_non_merge_word', 'end_word == _S0', '_S0')
+    nm_start = tr.literal_in_x(TS, 'has_non_merge_word', 'start_word == _S0', '_S0')
+    # remove_hyphen
+    hy_set = tr.literal_in_x(TH, 'remove_hyphen', 'word[-1] in _C0', '_C0')
+    hy_double = tr.literal_in_x(TH, 'remove_hyphen', 'word[-2:] == _S0', '_S0')
+    # get_line_words: the blank before a trailing break character, the single blank that is no word
+    norm_blank = tr.literal_in_x(TH, 'get_line_words', 'line[-2] == _S0', '_S0')
+    skip_term = tr.literal_in_x(TH, 'get_line_words', 'term == _S0', '_S0')
+    # defaults of word_break_chars
+    dflt = {fn: tr.char_collection_default(rel, fn, 'word_break_chars')
+            for rel, fn in ((TH, 'get_line_words'), (TH, 'get_page_lines_words'), (TH, 'remove_word_break_chars'),
+                            (TS, 'determine_word_break'))}
+    # get_page_lines_words hands its break characters to get_line_words by name
+    if tr.call_argument(TH, 'get_page_lines_words', 'get_line_words', 'word_break_chars', 1) != \
+            ('NAME', 'word_break_chars'):
+        raise E('get_page_lines_words does not pass word_break_chars on to get_line_words')
+    if tr.call_argument(TS, 'determine_word_break', 'remove_word_break_chars', 'word_break_chars', 2) != \
+            ('NAME', 'word_break_chars'):
+        raise E('determine_word_break does not pass word_break_chars on to remove_word_break_chars')
+
+    cl = tr.lean_char_list
+    d = []
+
+    def nat_def(name, doc, v):
+        d.append(f'/-- {doc} -/\ndef {name} : Nat := {v}\n')
+
+    def chars_def(name, doc, v):
+        d.append(f'/-- {doc} -/\ndef {name} : List Char := {cl(v)}\n')
+
+    nat_def('bigramFactorFirst', '`factor` reaching end_start_are_bigram from its 1st call in determine_word_break', big[0])
+    nat_def('bigramFactorSecond', '`factor` reaching end_start_are_bigram from its 2nd call in determine_word_break', big[1])
+    nat_def('titlecaseFactor', '`factor` reaching start_word_has_incorrect_titlecase from determine_word_break', title)
+    nat_def('commonFreq', '`common_freq` reaching end_is_common_word from determine_word_break', common)
+    nat_def('mergeNonMidFactorEnd', '`factor` reaching is_non_mid_word(end_word) from merge_is_more_common', mm[0])
+    nat_def('mergeNonMidFactorStart', '`factor` reaching is_non_mid_word(start_word) from merge_is_more_common', mm[1])
+    nat_def('mergeMoreCommonMin', "`N` of `wbd.freq['all'][merge_word] > N` in merge_is_more_common", mm_min)
+    nat_def('titlecaseNonMidFactorStart',
+            '`factor` reaching is_non_mid_word(start_word) from start_word_has_incorrect_titlecase', tc[0])
+    nat_def('titlecaseNonMidFactorEnd',
+            '`factor` reaching is_non_mid_word(end_word) from start_word_has_incorrect_titlecase', tc[1])
+    chars_def('breakSymbol', '`S` of `end_word[-1] != S` in has_word_break_symbol', sym)
+    nat_def('breakSymbolMergeMin', "`N` of `wbd.freq['all'][merge_word] > N` in has_word_break_symbol", sym_min)
+    chars_def('compoundHyphen', '`S` of `end_word[-1] == S` in end_start_are_hyphenated_compound', comp)
+    for w, nm in (('start_word', 'compoundStartUnseen'), ('end_word', 'compoundEndUnseen')):
+        a, b, c = unseen[w]
+        d.append(f"/-- `(N0, N1, N2)` of `freq['mid'][{w}] == N0 and freq['all'][merge_word] == N1 and "
+                 f"freq['all'][end_word + start_word] == N2` in end_start_are_hyphenated_compound -/\n"
+                 f'def {nm} : Nat × Nat × Nat := ({a}, {b}, {c})\n')
+    chars_def('nonMergeEndWord', '`S` of `end_word == S` in has_non_merge_word', nm_end)
+    chars_def('nonMergeStartWord', '`S` of `start_word == S` in has_non_merge_word', nm_start)
+    chars_def('hyphenChars', 'the characters of `word[-1] in {…}` in remove_hyphen', hy_set)
+    chars_def('doubleHyphen', '`S` of `word[-2:] == S` in remove_hyphen', hy_double)
+    chars_def('normBlank', '`S` of `line[-2] == S` in get_line_words (tied to the blank the model writes)', norm_blank)
+    chars_def('skipTerm', '`S` of `term == S` in get_line_words (tied to the blank the model writes)', skip_term)
+    chars_def('defaultBreakGetLineWords', 'default `word_break_chars` of get_line_words', dflt['get_line_words'])
+    chars_def('defaultBreakPageLinesWords', 'default `word_break_chars` of get_page_lines_words',
+              dflt['get_page_lines_words'])
+    chars_def('defaultBreakRemoveWordBreakChars', 'default `word_break_chars` of remove_word_break_chars',
+              dflt['remove_word_break_chars'])
+    chars_def('defaultBreakDetermine', 'default `word_break_chars` of determine_word_break',
+              dflt['determine_word_break'])
+    body = tr.HEADER.format(
+        src=f'{TS}: the arguments with which determine_word_break, merge_is_more_common and '
+            f'start_word_has_incorrect_titlecase call their predicates (literal passed, else the default of the '
+            f'callee), the thresholds and hyphen literals inside has_word_break_symbol, merge_is_more_common, '
+            f'end_start_are_hyphenated_compound, has_non_merge_word, the default break characters of '
+            f'determine_word_break; {TH}: the character set and the doubled hyphen of remove_hyphen, the two blanks '
+            f'of get_line_words, the default '
+            f'break characters of get_line_words, get_page_lines_words, remove_word_break_chars') + \
+        'namespace Pagexml.Generated.C17\n\n' + '\n'.join(d) + '\nend Pagexml.Generated.C17\n'
+    return {'PagexmlModel/Generated/C17.lean': body}
 
 
 # ---------------------------------------------------------------------------------------
@@ -222,7 +374,10 @@ class C17(Check):
                   '(CharClass) obeying three laws (alpha => word, space => not word, U+0020 is a space): totality, '
                   'no empty / blank token, conservation of the non-whitespace characters, hyphen rule, detector '
                   'range for an arbitrary detector record, punctuation never merges, strip-only-breaks. '
-                  'CPython re / str methods are tied to the CharClass record by the correspondence only')
+                  'CPython re / str methods are tied to the CharClass record by the correspondence only. The factors, '
+                  'thresholds, hyphen literals and default break characters of the code are regenerated from the '
+                  'source on every run (Generated/C17.lean); the theorems hold for every value of them, except that '
+                  'remove_hyphen\'s character set has to stay within - = : (C17_consts_*)')
     assumptions = [
         're.split(r"\\b", s) yields the maximal runs of \\w / non-\\w characters with an empty first/last piece at a '
         'word edge (sampled: op re_split)',
@@ -233,6 +388,12 @@ class C17(Check):
     ]
     nontrivial_rule = ('distinct inputs; non-trivial = a batch containing at least one line with a break character, '
                        'whitespace and a word character, or a line pair whose first line has a word')
+
+    # ---------------------------------------------------------------- constants regenerated from the source
+    def translate(self):
+        """factors, thresholds, hyphen literals and default break characters of the anchored code, read with
+        `ast` on every run (see generated_c17)"""
+        return generated_c17()
 
     # ---------------------------------------------------------------- generation
     def cases(self, rng: random.Random, tier: str) -> Iterable[Case]:
@@ -313,6 +474,62 @@ class C17(Check):
             pairs = [['x ' + e, s + ' y'] for e in es for s in ss]
             out.append(Case('pairs', {'B': rng.choice(BREAK_SETS), 'det': {'tables': tables}, 'pairs': pairs},
                             ['random', 'table-detector']))
+        # small counters: the comparisons `x > factor * y`, `x < factor`, `x > N` of the predicates flip between
+        # neighbouring values of their constants (whatever those are in the source now); title-case start words
+        # and lower-case end words reach start_word_has_incorrect_titlecase
+        for _ in range(60 if quick else 600):
+            B = rng.choice(BREAK_SETS)
+            es = rng.sample(['ver-', 'ver', 'ge-', 'Ver-', 'x=', 'on-', 'é-'], 3)
+            ss = rng.sample(['Dam', 'Gadering', 'dam', 'A', 'ǅam', 'Én', '12'], 3)
+            vocab = sorted(set(es + ss + [e[:-1] for e in es] + [e + s for e in es for s in ss] +
+                               [e.rstrip(B) + s for e in es for s in ss]))
+
+            def small(p, hi):
+                return sorted([w, rng.randint(0, hi)] for w in vocab if rng.random() < p)
+            big = sorted([e[:-1] if e[-1] in B else e, s_, rng.randint(0, 13)] for e in es for s_ in ss
+                         if rng.random() < 0.5)
+            tables = {'B': B, 'all': small(0.7, 15), 'mid': small(0.7, 2), 'start': small(0.8, 13),
+                      'end': small(0.8, 13), 'bigram': big, 'tme': [], 'tms': [], 'tnme': [], 'tnms': [],
+                      'cnms': [w for w in ss if rng.random() < 0.1]}
+            out.append(Case('pairs', {'B': rng.choice(BREAK_SETS), 'det': {'tables': tables},
+                                      'pairs': [['x ' + e, s_ + ' y'] for e in es for s_ in ss]},
+                            ['random', 'table-detector', 'small-counters']))
+        # the real functions called WITHOUT word_break_chars ('B': None): their defaults apply; the model is
+        # sent null and uses the defaults regenerated from the source
+        P = DEFAULT_POOL
+        out.append(Case('words', {'B': None, 'lines': corpus}, ['corpus', 'default-break']))
+        out.append(Case('words_enum', {'B': None, 'alpha': ALPHA, 'prefix': '', 'n': 3}, ['enum', 'default-break']))
+        for p in ('a-', 'a=', 'a:', 'a '):
+            out.append(Case('words_enum', {'B': None, 'alpha': ALPHA + ':', 'prefix': p, 'n': 2 if quick else 3},
+                            ['enum', 'default-break']))
+        for _ in range(4 if quick else 40):
+            lines = [rand_line(rng, P) for _ in range(50)]
+            out.append(Case('words', {'B': None, 'lines': lines}, ['random', 'default-break']))
+            if rng.random() < 0.5:
+                out.append(Case('page_words', {'B': None, 'lines': lines[:10]}, ['random', 'default-break']))
+        out.append(Case('page_words', {'B': None, 'lines': [c for c in corpus if c is not None][:20]},
+                        ['corpus', 'default-break']))
+        out.append(Case('strip', {'B': None, 'pairs': [[e, s] for e in short
+                                                       for s in ['', 'b', '-', '-b', '--b', '=b', ':b', '„', 'b-']],
+                                  'words': []}, ['enum', 'default-break']))
+        for _ in range(2 if quick else 20):
+            ws = [''.join(rng.choice('ab-=:„ .') for _ in range(rng.randint(0, 6))) for _ in range(40)]
+            out.append(Case('strip', {'B': None, 'pairs': [[rng.choice(ws), rng.choice(ws)] for _ in range(40)],
+                                      'words': []}, ['random', 'default-break']))
+        out.append(Case('pairs', {'B': None, 'det': None, 'pairs': [[e, s] for e in enum_strings('aB.- =:', '', 3)
+                                                                    for s in starts + ['=b', ':']]},
+                        ['enum', 'no-detector', 'default-break']))
+        for _ in range(1 if quick else 6):
+            g = {'seed': rng.randrange(10 ** 6), 'n': rng.choice([400, 1500]), 'B': '-', 'default_B': True,
+                 'p_break': rng.choice([0.2, 0.5, 0.8]), 'min_bigram': rng.choice([1, 5])}
+            corpus_lines = [l['text'] for l in gen_corpus(g) if l['text']]
+            pairs = []
+            for _ in range(100):
+                j = rng.randrange(len(corpus_lines) - 1)
+                pairs.append([corpus_lines[j], corpus_lines[j + 1]] if rng.random() < 0.7 else
+                             [rand_line(rng, P, 8), rand_line(rng, P, 8)])
+            out.append(Case('pairs', {'B': None, 'det': {'gen': g}, 'pairs': pairs},
+                            ['random', 'trained-detector', 'default-break']))
         return out
 
     # ---------------------------------------------------------------- implementation
@@ -327,21 +544,24 @@ class C17(Check):
         th, ts = _real()
         k = case.kind
         if k in ('words', 'words_enum'):
-            B = case.input['B']
-            return [call(th.get_line_words, l, word_break_chars=B) for l in self._lines(case)]
+            kw = wbc_kw(case.input['B'])
+            return [call(th.get_line_words, l, **kw) for l in self._lines(case)]
         if k == 'resplit':
             return [[t for t in re.split(r'\b', l)] for l in case.input['lines']]
         if k == 'page_words':
             import pagexml.model.physical_document_model as pdm
-            B = case.input['B']
+            kw = wbc_kw(case.input['B'])
 
             def f():
                 lines = [pdm.PageXMLTextLine(text=t) for t in case.input['lines']]
                 page = pdm.PageXMLPage(text_regions=[pdm.PageXMLTextRegion(lines=lines)])
-                return list(th.get_page_lines_words(page, word_break_chars=B))
+                return list(th.get_page_lines_words(page, **kw))
             return call(f)
         if k == 'strip':
             B = case.input['B']
+            if B is None:     # default break characters: called with two arguments
+                wbc = [call(th.remove_word_break_chars, e, s) for e, s in case.input['pairs']]
+                return {'wbc': wbc, 'wbc_set': wbc, 'hyphen': [call(th.remove_hyphen, w) for w in case.input['words']]}
             return {'wbc': [call(th.remove_word_break_chars, e, s, B) for e, s in case.input['pairs']],
                     'wbc_set': [call(th.remove_word_break_chars, e, s, set(B)) for e, s in case.input['pairs']],
                     'hyphen': [call(th.remove_hyphen, w) for w in case.input['words']]}
@@ -350,12 +570,19 @@ class C17(Check):
         if k == 'pairs':
             B = case.input['B']
             wbd = make_detector(case.input['det'])
-            Bw = ''.join(sorted(wbd.word_break_chars)) if wbd is not None else B
+            Bw = ''.join(sorted(wbd.word_break_chars)) if wbd is not None else B     # None: get_line_words' default
             out = []
             for prev, curr in case.input['pairs']:
-                pw = th.get_line_words(prev, word_break_chars=Bw)
-                cw = th.get_line_words(curr, word_break_chars=Bw)
-                d = canon(call(ts.determine_word_break, cw, pw, wbd=wbd, word_break_chars=B))
+                pw_r = call(th.get_line_words, prev, **wbc_kw(Bw))
+                cw_r = call(th.get_line_words, curr, **wbc_kw(Bw))
+                if 'ok' not in pw_r or 'ok' not in cw_r:
+                    # the splitter itself raised: an outcome to be judged, not a harness failure
+                    err = (pw_r if 'ok' not in pw_r else cw_r)['err']
+                    out.append({'prev_words': pw_r.get('ok', []), 'curr_words': cw_r.get('ok', []),
+                                'decision': {'err': err}, 'split_raised': err})
+                    continue
+                pw, cw = pw_r['ok'], cw_r['ok']
+                d = canon(call(ts.determine_word_break, cw, pw, wbd=wbd, **wbc_kw(B)))
                 out.append({'prev_words': pw, 'curr_words': cw, 'decision': d})
             return out
         raise ValueError(k)
@@ -436,9 +663,10 @@ class C17(Check):
             fs.append(Finding(f'C17:{key}', what, small, o))
 
         if k in ('words', 'words_enum'):
-            B = case.input['B']
+            B0 = case.input['B']
+            B = eff_B(_real()[0].get_line_words, B0)
             for l, o in zip(self._lines(case), out):
-                one = Case('words', {'B': B, 'lines': [l]}, case.tags)
+                one = Case('words', {'B': B0, 'lines': [l]}, case.tags)
                 if 'ok' not in o:
                     bad('split-raises', f'get_line_words({l!r}, {B!r}) raised {o["err"]}', one, [o])
                     continue
@@ -458,9 +686,10 @@ class C17(Check):
             if 'ok' not in out:
                 bad('split-raises', f'get_page_lines_words raised {out["err"]}', case, out)
         elif k == 'strip':
-            B = case.input['B']
+            B0 = case.input['B']
+            B = eff_B(_real()[0].remove_word_break_chars, B0)
             for (e, s), o, o2 in zip(case.input['pairs'], out['wbc'], out['wbc_set']):
-                one = Case('strip', {'B': B, 'pairs': [[e, s]], 'words': []}, case.tags)
+                one = Case('strip', {'B': B0, 'pairs': [[e, s]], 'words': []}, case.tags)
                 sub = {'wbc': [o], 'wbc_set': [o2], 'hyphen': []}
                 if e == '' or s == '':
                     continue          # the statement speaks of words; '' is not a word
@@ -477,7 +706,7 @@ class C17(Check):
                 if not okv:
                     bad('strip-more-than-breaks', f'remove_word_break_chars({e!r}, {s!r}, {B!r}) = {r!r}', one, sub)
             for w, o in zip(case.input['words'], out['hyphen']):
-                one = Case('strip', {'B': B, 'pairs': [], 'words': [w]}, case.tags)
+                one = Case('strip', {'B': B0, 'pairs': [], 'words': [w]}, case.tags)
                 sub = {'wbc': [], 'wbc_set': [], 'hyphen': [o]}
                 if w == '':
                     continue
@@ -485,17 +714,22 @@ class C17(Check):
                     bad('strip-raises', f'remove_hyphen({w!r}) raised {o["err"]}', one, sub)
                     continue
                 r = o['ok']
-                if not any(r == w[:len(w) - i] and all(c in '-=:' for c in w[len(w) - i:]) for i in range(0, 3)
+                if not any(r == w[:len(w) - i] and all(c in SPEC_HYPHENS for c in w[len(w) - i:]) for i in range(0, 3)
                            if i <= len(w)):
                     bad('strip-more-than-breaks', f'remove_hyphen({w!r}) = {r!r}', one, sub)
         elif k == 'pairs':
-            B = case.input['B']
+            B0 = case.input['B']
+            B = eff_B(_real()[1].determine_word_break, B0)
             det = case.input['det']
             wbd = make_detector(det)
             Bw = ''.join(sorted(wbd.word_break_chars)) if wbd is not None else B
             for (prev, curr), x in zip(case.input['pairs'], out):
-                one = Case('pairs', {'B': B, 'det': det, 'pairs': [[prev, curr]]}, case.tags)
+                one = Case('pairs', {'B': B0, 'det': det, 'pairs': [[prev, curr]]}, case.tags)
                 pw, cw, d = x['prev_words'], x['curr_words'], x['decision']
+                if x.get('split_raised'):
+                    bad('split-raises', f'get_line_words raised {x["split_raised"]} on {prev!r} or {curr!r} (B={Bw!r})',
+                        one, [x])
+                    continue
                 if 'ok' not in d:
                     bad('determine-raises', f'determine_word_break on {prev!r} / {curr!r} raised {d["err"]}', one, [x])
                     continue
@@ -526,7 +760,7 @@ class C17(Check):
 
     def nontrivial(self, case: Case) -> bool:
         if case.kind in ('words', 'words_enum'):
-            B = case.input['B']
+            B = eff_B(_real()[0].get_line_words, case.input['B'])
             return any(l and any(c in B for c in l) and any(c.isspace() for c in l) and re.search(r'\w', l)
                        for l in self._lines(case)[:400])
         if case.kind == 'pairs':
